@@ -40,7 +40,7 @@ func (s *Server) Definition(ctx context.Context, params *protocol.DefinitionPara
 		return nil, nil
 	}
 
-	resolved := s.getWorkspaceResolved(params.TextDocument.URI)
+	resolved := s.getResolvedAround(params.TextDocument.URI, journal)
 	currentPath := uriToPath(params.TextDocument.URI)
 
 	location := findDefinitionLocation(target, resolved, currentPath, journal)
